@@ -35,7 +35,8 @@ def genFirst (n : Nat) (wantAF : Bool) : Gen (Nat × Option PacketAdaptationFiel
     | _ => randRange 1 (min n 184))
   if wantAF ∧ s0 ≤ 183 then
     let af ← genAF (183 - s0)
-    return (s0, some { af with discontinuityIndicator := false })
+    -- a unit start may announce a discontinuity: the units before and after it are delivered all the same
+    return (s0, some { af with discontinuityIndicator := (← chance 1 8) && !af.isOneByteStuffing })
   else return (s0, none)
 
 def mkChunks (n : Nat) (wantAF : Bool) : Gen (List Nat × Option PacketAdaptationField) := do
